@@ -102,7 +102,7 @@ def ys_key(ys):
 
 def configs(thorough):
     out = []
-    shapes = [(1, 4, 4), (3, 6, 5)] + ([(1, 8, 8)] if thorough else [])
+    shapes = [(1, 4, 4), (3, 6, 5), (2, 12, 3)] + ([(1, 8, 8), (1, 3, 11)] if thorough else [])
     splits = [(1.0, None, 0.8, None), (None, 1.0, None, 1.0), (0.5, 0.5, 0.8, 1.0), (0.3, 0.7, 1.0, 0.5)]
     for n, shape, (mp, cp, ma, ca), am, lm, sm in itertools.product((1, 2, 3, 4, 6), shapes, splits, ("batch", "sample"), ("batch", "sample"),
                                                                 ("roll", "flip", "random")):
@@ -112,7 +112,9 @@ def configs(thorough):
 
 
 def search(seed, thorough=False):
+    """-> (first failing case or None, cases evaluated, distinct non-trivial cases); the whole grid is evaluated either way"""
     n = nontrivial = 0
+    first = None
     seeds = range(seed, seed + (20 if thorough else 6))
     for cfg in configs(thorough):
         for s in seeds:
@@ -124,7 +126,7 @@ def search(seed, thorough=False):
             if r == "SKIP":
                 continue
             nontrivial += 1
-            if r is not None:
+            if r is not None and first is None:
                 r["input"] = dict(cfg, seed=s)
-                return r, n, nontrivial
-    return None, n, nontrivial
+                first = r
+    return first, n, nontrivial
